@@ -206,4 +206,41 @@ theorem state_inventory :
     packageStateWrites = ["initGroupChain: groupChainImpl"] ∧
     forkFlagReads = [] := by decide
 
+/-! ### refusals and results -/
+
+/-- `removeFromCommonAncestor` ignores the result of `remove` and carries on with the next lower
+    height, and `remove` addresses the height slot as `count-1`: that is sound only because every
+    refusal of `remove` (`return false`) happens BEFORE its first effect — store write, count /
+    lastGroup update or sqlite statement — and, on a chain that represents a list, never fires inside
+    the loop (`Props/C19.lean: inv_remove`, `inv_rmto`). A refusal after an effect, or a new ignored
+    result, changes these lists. `save`'s error results are consumed by both callers. -/
+theorem result_discipline :
+    removeReturns = ["return true after 0 effects", "return false after 0 effects",
+                     "return true after 7 effects"] ∧
+    saveReturns = ["return err after 0 effects", "return err after 2 effects", "return nil after 5 effects"] ∧
+    resultUses = ["initGroupChain: save result assigned", "*groupChain.AddGroup: save result returned",
+                  "*groupChain.removeFromCommonAncestor: remove result ignored"] := by decide
+
+/-! ### selection rule, header rewrite and fork switch: the source has the model's shape -/
+
+set_option maxRecDepth 8000 in
+/-- `AddGroup` overwrites `DismissHeight` with `CreateHeight + GetGroupWorkDuration()` (model:
+    `prepare`); `availableGroupsAt` walks the iterator, keeps a group iff `DismissHeight > h` (strict),
+    and at the first other group appends `GetGroupByHeight(0)` and breaks (model: `availWalk`);
+    `triggerOnChain` removes down to the ancestor once, then `AddGroup`s the fork's groups in height
+    order and stops at the first refusal (model: `forkSwitch` / `addAll`). -/
+theorem selection_and_switch_shape :
+    addHeaderRewrite = ["header.WorkHeight = header.CreateHeight + uint64(common.GROUP_Work_GAP)",
+                        "header.DismissHeight = header.CreateHeight + common.GetGroupWorkDuration()"] ∧
+    availableShape = ["for g := iter.Current(); g != nil; g = iter.MovePre()", "call iter.Current()",
+                      "call iter.MovePre()", "if g.Header.DismissHeight > h", "call append(gs, g)",
+                      "call chain.GetGroupByHeight(0)", "call append(gs, genesis)", "break", "return gs"] ∧
+    triggerOnChainShape = ["if fork.current == fork.header",
+                           "call groupChain.removeFromCommonAncestor(fork.getGroup(fork.header))",
+                           "call fork.getGroup(fork.header)",
+                           "for fork.current <= fork.latestGroup.GroupHeight",
+                           "call fork.getGroup(fork.current)", "if forkGroup == nil", "return false",
+                           "call groupChain.AddGroup(forkGroup)", "if err == nil", "continue",
+                           "return false", "return true"] := by decide
+
 end Rangers.Props.C19Facts
